@@ -2,7 +2,7 @@
     Property theorems only; every proof is [exact] of a lemma of Proofs/. *)
 From Coq Require Import ZArith List Bool.
 From PV Require Import Model.Base Model.Sched Model.Chan Model.Seq Model.SeqSnap.
-From PV Require Import Proofs.SchedInv Proofs.SchedOps Proofs.SeqInv Proofs.DurationSpec.
+From PV Require Import Proofs.SchedInv Proofs.SchedOps Proofs.SeqInv Proofs.DurationSpec Proofs.AlignWitness.
 Import ListNotations.
 Open Scope Z_scope.
 
@@ -81,3 +81,10 @@ Theorem C02_validate_duration :
     match c_max g with Some m => d <= m | None => True end.
 Proof. exact validate_duration_spec. Qed.
 Print Assumptions C02_validate_duration.
+
+(** The hypotheses are satisfiable and the reachable state is not trivial. *)
+Theorem C02_reachable_state_example :
+  senv_ok wenv /\ ends (run wenv wops) = [10; 16] /\
+  map (fun c => length (ch_slots c)) (q_sched (run wenv wops)) = [2%nat; 2%nat].
+Proof. exact reachable_state_example. Qed.
+Print Assumptions C02_reachable_state_example.
